@@ -119,6 +119,7 @@ class StepCounter:
     def __init__(self):
         self.n = 0
         self.budget = None
+        self.sticky = 0
         self.active = False
         try:
             mon.use_tool_id(TOOL_STEPS, 'tdv-steps')
@@ -129,7 +130,8 @@ class StepCounter:
     def _cb(self, code, line):
         self.n += 1
         if self.budget is not None and self.n > self.budget:
-            self.budget = None
+            # re-armed when sticky: code under test that swallows BaseException meets the exception again later
+            self.budget = self.budget + self.sticky if self.sticky else None
             raise StepBudgetExceeded(self.n)
 
     def run(self, fn, budget=None):
